@@ -41,8 +41,10 @@ def quilt_cases(draw):
     kinds = [draw(st.sampled_from(['int64', 'float64', '<U3', 'bool'])) for _ in range(w)]
     members = []
     for q in range(k):
+        # a member may be homogeneous in a type of its own, so neighbouring members differ in their array type
+        mk = draw(st.sampled_from([None, 'int64', None, '<U3', None, 'bool', 'float64']))
         ln = draw(st.integers(1, 4))
-        cols = [draw(gen.column(kd, ln, missing=False)) for kd in kinds]
+        cols = [draw(gen.column(mk or kd, ln, missing=False)) for kd in kinds]
         members.append({'len': ln, 'cols': cols})
     total = sum(m['len'] for m in members)
     case = {'members': members, 'axis': axis, 'retain': retain, 'kinds': kinds, 'op': op, 'max_persist': draw(st.one_of(st.none(), st.integers(1, k))),
@@ -134,6 +136,31 @@ def _snap_any(x):
     if isinstance(x, list):
         return [_snap_any(y) for y in x]
     return canon(x)
+
+
+def _cast_like(got, want):
+    """The Quilt resolves the array type of a selection over the member Frames the selection touches; the concatenated Frame
+    resolves it over every member. Where the two types differ, the Quilt's must be one the Frame's type absorbs
+    (resolve(got, want) == want) and the values, cast to the Frame's type, are then compared exactly."""
+    from static_frame.core.util import resolve_dtype
+    if isinstance(got, np.ndarray) and isinstance(want, np.ndarray):
+        if got.dtype != want.dtype and got.shape == want.shape and resolve_dtype(got.dtype, want.dtype) == want.dtype:
+            return got.astype(want.dtype)
+        return got
+    if isinstance(got, sf.Series) and isinstance(want, sf.Series):
+        v = _cast_like(got.values, want.values)
+        return got if v is got.values else sf.Series(v, index=got.index, name=got.name)
+    if isinstance(got, sf.Frame) and isinstance(want, sf.Frame) and got.shape == want.shape:
+        gd, wd = list(got.dtypes.values), list(want.dtypes.values)
+        if gd != wd and all(g == w or resolve_dtype(g, w) == w for g, w in zip(gd, wd)):
+            cast = sf.Frame.from_items(((j, got.iloc[:, j].values.astype(wd[j])) for j in range(got.shape[1])), index=got.index, name=got.name)
+            return cast.relabel(columns=got.columns)
+        return got
+    if isinstance(got, tuple) and isinstance(want, tuple) and len(got) == len(want):
+        return tuple(_cast_like(g, w) for g, w in zip(got, want))
+    if isinstance(got, list) and isinstance(want, list) and len(got) == len(want):
+        return [_cast_like(g, w) for g, w in zip(got, want)]
+    return got
 
 
 def check_quilt(case):
@@ -249,6 +276,8 @@ def _check_quilt(case, tmp):
             raise Discard('documented refusal: %s' % got.cls)
         raise Failure('raised:%s' % got.cls, 'Quilt %s raised %r; the concatenated Frame gives %s' % (_describe(case), got.exc, short(_snap_any(want), 300)), got.where)
     a, b = _snap_any(want), _snap_any(got)
+    if a != b:
+        b = _snap_any(_cast_like(got, want))
     if a != b:
         raise Failure('quilt-differs', 'Quilt %s -> %s; concatenated Frame -> %s' % (_describe(case), short(b, 500), short(a, 500)))
     if case['backed'] and case['max_persist'] is not None:
